@@ -35,16 +35,15 @@ FastPaths == \A w \in FastWords :
 \* ... on arbitrary bytes too (well-formed or not): every first byte x a set of second bytes, and
 \* 5/6-byte encodings around the 31-bit limit of the native path
 FastBytes ==
-    /\ \A b1 \in 0..255 : ZzParse(<<b1>>, 1) = ZzParseSlow(<<b1>>, 1)
-    /\ \A b1 \in {b \in 0..255 : b % 3 = 0 \/ b \in {1, 127, 128, 129, 254, 255}} : \A b2 \in {0, 1, 2, 127, 128, 129, 255} :
+    /\ \A b1 \in {b \in 0..255 : b % 4 < 2} : ZzParse(<<b1>>, 1) = ZzParseSlow(<<b1>>, 1)
+    /\ \A b1 \in {b \in 0..255 : b % 16 = 0 \/ b \in {1, 127, 129, 254, 255}} : \A b2 \in {0, 1, 2, 127, 128, 129, 255} :
           ZzParse(<<b1, b2>>, 1) = ZzParseSlow(<<b1, b2>>, 1)
-    /\ \A b1 \in {0, 1, 126, 127} : \A b2 \in {0, 1, 127, 128, 255} : \A y \in {0, 1, 7, 8, 15, 127, 128, 255} :
+    /\ \A b1 \in {0, 127} : \A b2 \in {0, 1, 128, 255} : \A y \in {0, 7, 8, 127, 128, 255} :
           /\ ZzParse(<<b2, 128 + b1, 255, 128, y>>, 1) = ZzParseSlow(<<b2, 128 + b1, 255, 128, y>>, 1)
           /\ ZzParse(<<128 + b1, 255, 128, 255, 128 + (y % 128), b2>>, 1)
                 = ZzParseSlow(<<128 + b1, 255, 128, 255, 128 + (y % 128), b2>>, 1)
 Vectors ==
-    /\ FastPaths
-    /\ (st.lvl = 0 => FastBytes)          \* constant: evaluate once
+    /\ (st.lvl = 0 => FastPaths /\ FastBytes)          \* constant: evaluate once
     /\ TSer(Struct(<<F(1, I(1))>>), DefaultStyle) = <<21, 2, 0>>
     /\ TSer(Struct(<<F(1, Bool(TRUE)), F(2, Bool(FALSE))>>), DefaultStyle) = <<17, 18, 0>>
     /\ TSer(Struct(<<F(16, I(0))>>), DefaultStyle) = <<5, 32, 0, 0>>
